@@ -30,6 +30,7 @@ var skeletonFuncs = []string{
 	"parseParam", "quote", "streamHTTP.getCodec", "Mux.match",
 	"state.addConnHandler", "state.processFile", "path.alive", "Mux.loadState", "Mux.storeState",
 	"gzipReader.Read", "gzipWriter.Close", "CompressorGzip.Compress", "CompressorGzip.Decompress", "streamGRPC.compress", "streamGRPC.decompress",
+	"streamHTTP.SendHeader", "streamGRPC.SendHeader", "muxOptions.unary", "muxOptions.stream", "inPayload", "outPayload",
 }
 
 func leanIdent(fn string) string {
@@ -139,6 +140,8 @@ var stmtFuncs = []string{
 	"Mux.registerService", "Mux.RegisterConn", "Mux.DropConn", "Mux.loadState", "Mux.storeState",
 	"gzipReader.Read", "gzipWriter.Close", "CompressorGzip.Compress", "CompressorGzip.Decompress", "streamGRPC.compress", "streamGRPC.decompress",
 	"streamGRPC.RecvMsg", "streamGRPC.SendMsg", "streamHTTP.readMsg", "streamHTTP.decodeRequestArgs", "streamHTTP.SendMsg", "createConnHandler",
+	"Mux.serveHTTP", "Mux.serveGRPC", "streamHTTP.RecvMsg", "streamHTTP.SendHeader", "streamGRPC.SendHeader", "streamWS.RecvMsg", "streamWS.SendMsg",
+	"muxOptions.unary", "muxOptions.stream", "inPayload", "outPayload",
 }
 
 // writerOrder: the order of lock / load / modify / store / unlock in a writer function
@@ -270,6 +273,32 @@ func genConds(g *genCtx, lean string, facts map[string]interface{}) error {
 		}
 	}
 	sb.WriteString(strings.Join(loads, ",\n") + "\n]\n\n")
+	// every place an interceptor can be entered from: calls of opts.unary / opts.stream and
+	// mentions of the raw interceptor fields.
+	sb.WriteString("/-- call sites through which a unary / stream interceptor is entered, per function. -/\ndef interceptorSites : List (String × String) := [\n")
+	var sites2 []string
+	for _, fn := range fns {
+		if strings.HasPrefix(fn, "Verif") || strings.Contains(fn, ".Verif") {
+			continue
+		}
+		ast.Inspect(g.funcs[fn].Body, func(x ast.Node) bool {
+			switch t := x.(type) {
+			case *ast.CallExpr:
+				f := nodeSrc(g, t.Fun)
+				if f == "opts.unary" || f == "opts.stream" || strings.HasSuffix(f, ".unaryInterceptor") || strings.HasSuffix(f, ".streamInterceptor") || f == "ui" || f == "si" {
+					sites2 = append(sites2, fmt.Sprintf("  (%q, %q)", fn, strings.Join(strings.Fields(nodeSrc(g, t)), " ")))
+					return true
+				}
+				for _, a := range t.Args {
+					if as := nodeSrc(g, a); strings.HasSuffix(as, ".unaryInterceptor") || strings.HasSuffix(as, ".streamInterceptor") {
+						sites2 = append(sites2, fmt.Sprintf("  (%q, %q)", fn, strings.Join(strings.Fields(nodeSrc(g, t)), " ")))
+					}
+				}
+			}
+			return true
+		})
+	}
+	sb.WriteString(strings.Join(sites2, ",\n") + "\n]\n\n")
 	sb.WriteString("end Larking.Gen.Skel\n")
 	facts["skeletons"] = all
 	return writeIfChanged(filepath.Join(lean, "Larking/Gen/Skel.lean"), sb.String())
